@@ -49,14 +49,22 @@ def name_ok(p: bytes):
     return b"/" not in p and p not in (b".", b"..")
 
 
+def qp(b: bytes) -> bytes:
+    return b"".join(b"=%02X" % c for c in b)
+
+
 def build_spec(p: bytes, ncr=None):
+    """`ncr` is the payload used in positions whose line structure is NOT data shape: text that
+    the server collapses to one line (HTML titles, mail subjects), however it is spelled."""
     ncr = p if ncr is None else ncr
     """One world with the payload in every content-derived echo position."""
     spec = {
-        "title": {"page.html": b"<html><head><title>" + p + b"</title></head><body>x</body></html>\n",
+        "title": {"page.html": b"<html><head><title>" + ncr + b"</title></head><body>x</body></html>\n",
                   # the same payload spelled as numeric character references
                   "ncr.html": b"<html><head><title>T " + b"".join(b"&#%d;" % c for c in ncr) + b" end</title></head><body>x</body></html>\n"},
-        "mail": {"box.mbox": b"From a@b Thu Jan  1 00:00:01 2004\nFrom: a@b\nSubject: " + p + b"\n\nbody\n\nFrom c@d Thu Jan  1 00:00:02 2004\nSubject: plain\n\nb2\n"},
+        "mail": {"box.mbox": b"From a@b Thu Jan  1 00:00:01 2004\nFrom: a@b\nSubject: " + ncr.replace(b"\n", b"\n ").replace(b"\r", b" ") + b"\n\nbody\n\n"
+                             b"From c@d Thu Jan  1 00:00:02 2004\nSubject: =?utf-8?q?enc_" + qp(ncr) + b"_word?=\n\nb2\n\n"
+                             b"From e@f Thu Jan  1 00:00:03 2004\nSubject: plain\n\nb3\n"},
         "abs": {"f.txt": b"f\n", "f.txt.abstract": p + b"\n", ".abstract": b"dir " + p + b"\n"},
         "links": {"f.txt": b"f\n",
                   ".names": b"Path=./f.txt\nName=N " + p.replace(b"\n", b" ").replace(b"\r", b" ") + b"\n\n"
@@ -78,6 +86,10 @@ def build_spec(p: bytes, ncr=None):
     }
     if name_ok(p):
         spec["names"] = {b"n" + p + b".txt": b"named\n", b"d" + p: {b"inner.txt": b"i\n"}}
+        # a root-level directory whose name begins like a URL: selector but is no URL
+        # (single-line names only: URL: is a reserved namespace and a line break in it is ill-formed content)
+        if b"\n" not in p and b"\r" not in p:
+            spec[b"URL:x:" + p] = {b"inner.txt": b"i\n"}
     return spec
 
 
@@ -108,6 +120,9 @@ def requests(p: bytes):
         out.append(("names", "wap", b"GET /wap/names HTTP/1.0\r\n\r\n"))
         out.append(("names-title", "http", b"GET /names/d" + q + b" HTTP/1.0\r\n\r\n"))
         out.append(("names-title", "wap", b"GET /wap/names/d" + q + b" HTTP/1.0\r\n\r\n"))
+        if b"\n" not in p and b"\r" not in p:
+            out.append(("urlname", "http", b"GET /URL%3Ax%3A" + q + b" HTTP/1.0\r\n\r\n"))
+            out.append(("urlname", "wap", b"GET /wap/URL%3Ax%3A" + q + b" HTTP/1.0\r\n\r\n"))
     # Gopher+ attribute listings
     out.append(("plus", "gopherp", b"/plus\t$\r\n"))
     out.append(("plus", "gopherp", b"/plus/g.txt\t!\r\n"))
@@ -116,6 +131,10 @@ def requests(p: bytes):
     out.append(("title", "gopherp", b"/title\t$\r\n"))
     out.append(("title", "gopherp", b"/title/page.html\t!\r\n"))
     out.append(("title", "gopherp", b"/title/ncr.html\t!\r\n"))
+    out.append(("title", "gopherp", b"/title/page.html\t!\r\n"))
+    out.append(("title", "gopherp", b"/title/ncr.html\t!\r\n"))
+    out.append(("title", "gopher", b"/title\r\n"))
+    out.append(("mail/box.mbox", "gopher", b"/mail/box.mbox\r\n"))
     out.append(("mail/box.mbox", "gopherp", b"/mail/box.mbox\t$\r\n"))
     out.append(("links", "gopherp", b"/links\t$\r\n"))
     out.append(("gm", "gopherp", b"/gm\t$\r\n"))
@@ -125,8 +144,14 @@ def requests(p: bytes):
 def shape(family, out: bytes):
     """The structure a client sees: (header block, element skeleton) or block-header sequence."""
     if family == "gopher":
-        # the redirect page served raw
-        return ("gopher", tuple(parsers.skeleton(out.decode("utf-8", "surrogateescape"))) if out.lstrip().startswith(b"<") else ("text", parsers.is_gopher_error(out)))
+        if out.lstrip().startswith(b"<"):
+            # the redirect page served raw
+            return ("gopher", tuple(parsers.skeleton(out.decode("utf-8", "surrogateescape"))))
+        try:
+            # a menu: its line structure (type characters) is what a client acts on
+            return ("gopher-menu", tuple(l[0] for l in parsers.gopher_menu_lines(out)))
+        except ValueError:
+            return ("text", parsers.is_gopher_error(out))
     if family == "gopherp":
         m = parsers.GP_STATUS.match(out)
         if not m:
@@ -187,7 +212,7 @@ def check_payload(p):
                 # refusing the selector (not-found) is the other legitimate outcome
                 nf = [x for (l2, f2), v in ref_by_label.items() if f2 == fam and l2 in ("selector-404",) for x in v]
                 if fam == "gopher":
-                    if s == ("gopher", ("text", True)):
+                    if s == ("gopher-menu", (b"3",)):
                         continue
                 elif nf and s[3] == nf[0][3] and s[1] == nf[0][1]:
                     continue
